@@ -222,6 +222,11 @@ impl Font {
     /// `physical`: order in which table bodies are laid out; the directory is sorted by tag iff
     /// `sort_dir` (the spec wants it sorted; readers must not depend on physical order).
     pub fn build_with_order(&self, physical: &[usize], sort_dir: bool) -> Vec<u8> {
+        self.build_opts(physical, sort_dir, true)
+    }
+
+    /// `fix_head` = false leaves a table tagged `head` byte-for-byte as given (container tests).
+    pub fn build_opts(&self, physical: &[usize], sort_dir: bool, fix_head: bool) -> Vec<u8> {
         let n = self.tables.len();
         let mut out = W::new();
         out.u32(self.version);
@@ -236,7 +241,7 @@ impl Font {
             let (t, d) = &self.tables[i];
             out.pad4();
             placed[i] = (out.len() as u32, d.len() as u32);
-            if *t == tag("head") && d.len() >= 12 {
+            if fix_head && *t == tag("head") && d.len() >= 12 {
                 head_at = Some(out.len());
             }
             out.bytes(d);
